@@ -1,7 +1,10 @@
 #!/usr/bin/env python3
 """Strict reference SMT-LIB 2.6 solver process (C17) -- the machine of lean/PySMT/Spec/StrictSolver.lean.
 
-    refsolver.py [--log FILE] [--int-range R] [--usize K]
+    refsolver.py [--log FILE] [--int-range R] [--usize K] [--lenient-pop] [--layout 0|1|2|3]
+
+(`--layout`: how replies are laid out in lines, see `lay_out`; the log always has the one-line form.  `--lenient-pop`: not strict -- a pop beyond the stack is acknowledged and removes every level but the first; used only to
+compare the wrapper model with the wrapper on a solver that does not reject such a pop.)
 
 Reads commands (S-expressions) on stdin, answers *exactly one* reply per command on stdout:
 `success`, `sat|unsat|unknown`, `((t v))`, or `(error "...")`.  An illegal command leaves the state
@@ -99,6 +102,7 @@ class Strict(object):
         self.print_success = True
         self.R = int_range
         self.K = usize
+        self.lenient_pop = False
 
     # ------------------------------------------------------------- scope
     def sort_arity(self, name):
@@ -554,7 +558,9 @@ class Strict(object):
                     self.levels.append(Level())
             else:
                 if n >= len(self.levels):
-                    raise Err("pop %d with %d levels" % (n, len(self.levels) - 1))
+                    if not self.lenient_pop:
+                        raise Err("pop %d with %d levels" % (n, len(self.levels) - 1))
+                    n = len(self.levels) - 1        # test double: a solver that tolerates popping too much
                 if n:
                     del self.levels[-n:]
             self.sat_mode = False
@@ -586,9 +592,24 @@ class Strict(object):
         raise Err("unsupported command %s" % name)
 
 
+def lay_out(reply, layout):
+    """the bytes written for a reply.  SMT-LIB fixes the tokens of a reply, not their layout: a client has to find the
+    end of a parenthesised reply by its closing parenthesis.  0: one line; 1: one binding per line; 2: a line break
+    after every token of a value reply; 3: a blank line first, trailing blanks, CR LF line ends."""
+    if layout in (1, 2) and reply.startswith("(("):
+        if layout == 1:
+            return "(\n" + "".join("  %s\n" % render(b) for b in parse(tokenize(reply))[0][0]) + ")\n"
+        return "\n".join(tokenize(reply)) + "\n"
+    if layout == 3:
+        return "\r\n" + reply + "  \r\n"
+    return reply + "\n"
+
+
 def main(argv):
     log = None
     R, K = 3, 3
+    lenient = False
+    layout = 0
     i = 0
     while i < len(argv):
         if argv[i] == "--log":
@@ -600,10 +621,17 @@ def main(argv):
         elif argv[i] == "--usize":
             K = int(argv[i + 1])
             i += 2
+        elif argv[i] == "--lenient-pop":
+            lenient = True
+            i += 1
+        elif argv[i] == "--layout":
+            layout = int(argv[i + 1])
+            i += 2
         else:
             sys.stderr.write("unknown argument %s\n" % argv[i])
             return 2
     st = Strict(R, K)
+    st.lenient_pop = lenient
     pending = []
     out = sys.stdout
     for line in sys.stdin:
@@ -619,7 +647,7 @@ def main(argv):
                 log.write("> %s\n< %s\n" % (text, reply))
                 log.flush()
             if reply != "success" or st.print_success:
-                out.write(reply + "\n")
+                out.write(lay_out(reply, layout))
                 out.flush()
             if st.exited:
                 return 0
